@@ -1595,6 +1595,13 @@ func FunExpr(query *Query, current Map, expr *sqlparser.FuncExpr, opts ...ExprOp
 				if err != nil {
 					return nil, err
 				}
+				// as for ONCE: of the workers of a PARALLEL join that get here
+				// together, one invokes the function and the others take its result
+				query.onceMut.Lock()
+				defer query.onceMut.Unlock()
+				if rs, ok := query.singleton(name); ok {
+					return rs, nil
+				}
 				rs, err := function(query, current, nil, slice)
 				if err != nil {
 					return nil, err
